@@ -324,6 +324,10 @@ def make(M, K, flags=FLAGS, modes=GM):
                 g.goal("two ancestor versions compared by distance")
             if uses_commits and flag in ("at-least", "this-commit") and not e_ran:
                 g.goal("--at-least/--this-commit satisfied by a cached version")
+            if uses_commits and flag == "at-least" and rows and rows[0]["commit"] and sched.idx(rows[0]["commit"]) is not None:
+                ci_, C_ = sched.idx(rows[0]["commit"]), sched.idx(at_least)
+                if C_ is not None and ci_ != C_ and not bool(g.lift(dag.reach(C_, ci_))) and not bool(g.lift(dag.reach(ci_, C_))):
+                    g.goal("--at-least with a commit unrelated to the cached version's")
             return {"nontrivial": uses_commits and any(r["commit"] for r in rows),
                     "sample": {"case": D, "where": wres.out.strip()[-30:], "e_ran": e_ran, "COND_DEPS": deps[-24:],
                                "git_questions": sched.asked[:8]}}
@@ -398,6 +402,10 @@ def spaces(tier):
                 "(distinct timestamps; commit NULL | any commit | unknown hash), git modes {no repo, disabled, no commits, DAG}, "
                 "flags {none, --again, --this-commit, --at-least C, both, again+commit}", depth=6, goals=goals,
                 outside=["M>4", "K>3", "grafts/shallow clones"])]
+    sp.append(Space("m4-k1-atleast", make(4, 1, flags=("at-least",), modes=("dag",)),
+                    "exactly 4 commits (symbolic parents: forks and merges, so that a version's commit and C can be unrelated "
+                    "ancestors of HEAD), HEAD anywhere, <=1 recorded version, --at-least C for every C", depth=7,
+                    preset={"M": 3, "dirty": False}, goals=["--at-least with a commit unrelated to the cached version's"]))
     if tier == "thorough":
         sp.append(Space("m4-k3", make(4, 3, flags=("none", "this-commit", "at-least"), modes=("dag",)),
                         "<=4 commits incl. merges, <=3 recorded versions, flags {none, --this-commit, --at-least C}", depth=7,
